@@ -507,6 +507,11 @@ func (x *CommonLex) LexNum(c rune) (int, TokVal) {
 	b := x.ConstructToken(c, numMatcher, xutils.GetTokenName(xutils.NUM))
 	val, err := strconv.ParseFloat(b.String(), 10)
 
+	if ne, ok := err.(*strconv.NumError); ok && ne.Err == strconv.ErrRange {
+		// A well-formed number too large for a double is the infinity
+		// ParseFloat returns with this error, as IEEE 754 has it
+		err = nil
+	}
 	if err != nil {
 		x.SetError(fmt.Errorf("bad number %q", b.String()))
 		return xutils.ERR, nil
